@@ -28,9 +28,9 @@ type Case struct {
 	API    string `json:"api"` // EcdsaVerify | SchnorrVerify | CheckPayToContract | NewPublicKey | ParseXOnlyPubkey | sign:*
 	Family string `json:"family"`
 	Note   string `json:"note,omitempty"`
-	Pub    string `json:"pub,omitempty"`  // EcdsaVerify: key bytes; SchnorrVerify: x-only key; P2C: internal key
-	Sig    string `json:"sig,omitempty"`  // EcdsaVerify: DER (no hash type); SchnorrVerify: 64 bytes; P2C: output key
-	Msg    string `json:"msg,omitempty"`  // 32-byte digest; P2C: tweak
+	Pub    string `json:"pub,omitempty"` // EcdsaVerify: key bytes; SchnorrVerify: x-only key; P2C: internal key
+	Sig    string `json:"sig,omitempty"` // EcdsaVerify: DER (no hash type); SchnorrVerify: 64 bytes; P2C: output key
+	Msg    string `json:"msg,omitempty"` // 32-byte digest; P2C: tweak
 	Par    bool   `json:"parity,omitempty"`
 	Priv   string `json:"priv,omitempty"` // signers
 	Aux    string `json:"aux,omitempty"`
@@ -109,7 +109,7 @@ func evaluate(c Case) verdict {
 		return evalParse(c)
 	case "ParseXOnlyPubkey":
 		return evalParseXOnly(c)
-	case "sign:ecdsa-random", "sign:ecdsa-rfc6979", "sign:ecdsa-nonce", "sign:schnorr":
+	case "sign:ecdsa-random", "sign:ecdsa-rfc6979", "sign:ecdsa-nonce", "sign:schnorr", "recover":
 		return evalSigner(c)
 	}
 	ev.HarnessError("unknown api %q", c.API)
@@ -155,6 +155,10 @@ func main() {
 		replay(*replayFile)
 		return
 	}
+	r.Budget = 100 * time.Second
+	if r.Thorough() {
+		r.Budget = 17 * time.Minute
+	}
 	t0 := time.Now()
 	vec, err := refsig.SelfTest(ev.Repo())
 	if err != nil {
@@ -180,6 +184,9 @@ func main() {
 			}()
 		}
 		for _, c := range cases {
+			if r.OverBudget() {
+				break // remaining members are not executed; the run is reported as not exhaustive
+			}
 			jobs <- c
 		}
 		close(jobs)
@@ -252,16 +259,16 @@ func main() {
 		}
 	}
 	r.Finish(map[string]interface{}{
-		"evaluations":          co.evals,
-		"distinct_nontrivial":  len(co.classes),
-		"rule":                 "a case class is (family, reference reason, implementation verdict); every class listed in outcome_classes was produced by at least one executed case on the real code and the reference; classes whose reference reason is a pure format failure are included because the implementation's format gate is part of the predicate",
-		"per_family":           co.perFam,
-		"outcome_classes":      co.classes,
-		"not_judged":           co.notJud,
-		"samples":              samples,
-		"reference_vectors":    vec,
-		"reference_vector_sum": vecTotal,
-		"exhaustive":           true,
+		"evaluations":           co.evals,
+		"distinct_nontrivial":   len(co.classes),
+		"rule":                  "a case class is (family, reference reason, implementation verdict); every class listed in outcome_classes was produced by at least one executed case on the real code and the reference; classes whose reference reason is a pure format failure are included because the implementation's format gate is part of the predicate",
+		"per_family":            co.perFam,
+		"outcome_classes":       co.classes,
+		"not_judged":            co.notJud,
+		"samples":               samples,
+		"reference_vectors":     vec,
+		"reference_vector_sum":  vecTotal,
+		"executed_of_generated": fmt.Sprintf("%d of %d", co.evals, nVerify+len(sRandom)+len(sDet)),
 	}, []string{
 		"oracle: refsig over refsecp (math/big affine arithmetic, BIP340/BIP341/RFC6979/BIP66 texts, Core's lax DER parser); validated in this run against the BIP340 CSV and the literal vectors of gocoin's own test sources (counts in reference_vectors)",
 		"signature encoding for ECDSA is Core's consensus (lax) parser; a signature that only the lax parser understands and gocoin refuses is property C01's DER finding and is counted in not_judged, never reported here",
